@@ -41,6 +41,7 @@ import string
 import sys
 import tempfile
 import time
+import urllib.parse
 import weakref
 
 import ZConfig
@@ -127,6 +128,22 @@ def _char_of_big_int(name, conv_is_char):
     return conv_is_char and name == "thread"
 DEFAULT_FORMAT = "------\\n%(asctime)s %(levelname)s %(name)s %(message)s"
 DATEFMT = "%Y-%m-%dT%H:%M:%S"
+NOFILE = ("STDOUT", "STDERR", "OTHER")     # paths that name no log file
+# handler sections other than <logfile>: what the network would see is behind
+# a seam (socket creation and emit are stubbed); construction, level,
+# formatter and the section's own options are real
+DEFAULT_FORMATS = {
+    "syslog": "%(name)s %(message)s",
+    "http": "%(asctime)s %(levelname)s %(name)s %(message)s",
+    "email": "%(asctime)s %(levelname)s %(name)s %(message)s"}
+SECTION_OF = {"syslog": "syslog", "http": "http-logger",
+              "email": "email-notifier"}
+CLASS_OF = {"syslog": "SysLogHandler", "http": "HTTPHandler",
+            "email": "SMTPHandler"}
+FACILITIES = ["auth", "authpriv", "cron", "daemon", "kern", "lpr", "mail",
+              "news", "security", "syslog", "user", "uucp", "local0",
+              "local1", "local2", "local3", "local4", "local5", "local6",
+              "local7"]
 
 
 # ---------------------------------------------------------------------------
@@ -255,7 +272,7 @@ def render(handler_plan, record_dict):
 
 def handler_text_format(h):
     if h.get("format") is None:
-        return DEFAULT_FORMAT
+        return DEFAULT_FORMATS.get(h.get("htype"), DEFAULT_FORMAT)
     return fmt_text(h["format"], h.get("style") or "classic")
 
 
@@ -352,6 +369,8 @@ def model_handler(h):
     if h.get("style") not in (None, "classic", "format", "template",
                               "safe-template", "CLASSIC", "Format"):
         out["verdict"] = "reject"
+    if h.get("htype"):
+        return _model_other(h, out)
     path = h["path"]
     spec = "accept"
     if path in ("STDOUT", "STDERR"):
@@ -384,6 +403,51 @@ def model_handler(h):
             except LookupError:
                 spec = "reject"
     for v in (spec, fv):
+        if v == "reject":
+            out["verdict"] = "reject"
+        elif v == "unspec" and out["verdict"] != "reject":
+            out["verdict"] = "unspec"
+    return out
+
+
+def _model_other(h, out):
+    """<syslog>, <http-logger>, <email-notifier>: the section's own options.
+    Values outside what the section documents are refused; the documented
+    ones end up on the handler object."""
+    t = h["htype"]
+    out["kind"] = CLASS_OF[t]
+    spec = "accept"
+    if t == "syslog":
+        fac = h.get("facility")
+        if fac is not None and fac.lower() not in FACILITIES:
+            spec = "reject"
+        out["facility"] = (fac or "user").lower()
+        host, _, port = (h.get("address") or "localhost:514").partition(":")
+        out["address"] = (host, int(port))
+    elif t == "http":
+        url = h.get("url") or "http://localhost/"
+        parts = urllib.parse.urlsplit(url)
+        if parts.scheme != "http" or not parts.netloc or not parts.path:
+            spec = "reject"
+        out["host"] = parts.netloc
+        out["selector"] = url.split(parts.netloc, 1)[1] if parts.netloc \
+            else None
+        m = (h.get("method") or "GET").upper()
+        if m not in ("GET", "POST"):
+            spec = "reject"
+        out["method"] = m
+    else:
+        srv = h.get("smtp_server") or "localhost"
+        host, _, port = srv.partition(":")
+        out["mailhost"], out["mailport"] = host.lower(), (int(port) if port
+                                                          else None)
+        out["from"], out["to"] = h["from"], list(h["to"])
+        out["subject"] = h.get("subject") or "Message from Zope"
+        u_, p_ = h.get("smtp_username") or "", h.get("smtp_password") or ""
+        if bool(u_) != bool(p_):
+            spec = "reject"
+        out["credentials"] = (u_, p_) if u_ else None
+    for v in (spec, out["format_verdict"]):
         if v == "reject":
             out["verdict"] = "reject"
         elif v == "unspec" and out["verdict"] != "reject":
@@ -436,6 +500,9 @@ def config_text(plan, scratch):
         if lg.get("level") is not None:
             out.append("  level %s" % lg["level"])
         for h in lg["handlers"]:
+            if h.get("htype"):
+                out.extend(_other_text(h))
+                continue
             out.append("  <logfile>")
             p = h["path"]
             if p not in ("STDOUT", "STDERR") and not h.get("relname"):
@@ -462,8 +529,91 @@ def config_text(plan, scratch):
     return "\n".join(out) + "\n"
 
 
+def _other_text(h):
+    sec = SECTION_OF[h["htype"]]
+    out = ["  <%s>" % sec]
+    for key, opt in (("level", "level"), ("style", "style"),
+                     ("arbitrary", "arbitrary-fields"),
+                     ("dateformat", "dateformat"),
+                     ("formatter", "formatter"),
+                     ("facility", "facility"), ("address", "address"),
+                     ("url", "url"), ("method", "method"),
+                     ("from", "from"), ("subject", "subject"),
+                     ("smtp_server", "smtp-server"),
+                     ("smtp_username", "smtp-username"),
+                     ("smtp_password", "smtp-password")):
+        if h.get(key) is not None:
+            out.append("    %s %s" % (opt, h[key]))
+    for t in h.get("to") or ():
+        out.append("    to %s" % t)
+    if h.get("format") is not None:
+        out.append("    format %s" % fmt_text(
+            h["format"], h.get("style") or "classic").replace("$", "$$"))
+    out.append("  </%s>" % sec)
+    return out
+
+
 # ---------------------------------------------------------------------------
 # generation
+
+def gen_other_handler(rng, k, p_bad=0.3):
+    """A handler section that is not a <logfile>."""
+    t = rng.choice(["syslog", "http", "email"])
+    h = {"htype": t, "path": "OTHER"}
+    bad = rng.random() < p_bad
+    h["level"] = gen_level(rng, p_bad) if rng.random() < 0.9 else None
+    if t == "syslog":
+        if rng.random() < 0.6:
+            f = rng.choice(FACILITIES)
+            h["facility"] = rng.choice([f, f.upper(), f.capitalize()])
+            if bad and rng.random() < 0.5:
+                h["facility"] = rng.choice(["local8", "users", "log", "7"])
+        if rng.random() < 0.5:
+            h["address"] = rng.choice(["localhost:514", "127.0.0.1:1514",
+                                       "loghost.example:%d" % (6000 + k)])
+    elif t == "http":
+        if rng.random() < 0.7:
+            h["url"] = rng.choice([
+                "http://localhost/log", "http://log.example:8080/a/b",
+                "http://h.example/p?x=1&y=2", "http://h.example/p;v=1?q",
+                "http://10.0.0.%d/sink" % (k + 1)])
+            if bad and rng.random() < 0.5:
+                h["url"] = rng.choice(["https://h.example/p", "http:///p",
+                                       "http://h.example", "ftp://h/p",
+                                       "h.example/p"])
+        if rng.random() < 0.5:
+            h["method"] = rng.choice(["GET", "POST", "get", "Post"])
+            if bad and rng.random() < 0.5:
+                h["method"] = rng.choice(["PUT", "HEAD", "G E T"[:3] + "S"])
+    else:
+        h["from"] = "app%d@sim.example" % k
+        h["to"] = ["ops@sim.example"] + (["oncall%d@sim.example" % k]
+                                         if rng.random() < 0.4 else [])
+        if rng.random() < 0.4:
+            h["subject"] = rng.choice(["alert", "Message from app %d" % k,
+                                       "[sim] 100%% sure"])
+        if rng.random() < 0.5:
+            h["smtp_server"] = rng.choice(["localhost", "mail.example:2525",
+                                           "127.0.0.1:25", "MAIL.example"])
+        r = rng.random()
+        if r < 0.3:
+            h["smtp_username"], h["smtp_password"] = "john", "johnpw"
+        elif bad and r < 0.6:
+            h[rng.choice(["smtp_username", "smtp_password"])] = "only-one"
+    if rng.random() < 0.6:
+        h["style"] = rng.choice(["classic", "format", "template",
+                                 "safe-template"])
+        if rng.random() < 0.85 or (h["style"] in ("format", "template")
+                                   and not bad):
+            h["format"] = gen_format(rng, h["style"], p_bad)
+    elif rng.random() < 0.5:
+        h["format"] = gen_format(rng, "classic", p_bad)
+    if rng.random() < 0.2:
+        h["arbitrary"] = rng.choice(BOOL_TRUE + BOOL_FALSE)
+    if rng.random() < 0.2:
+        h["dateformat"] = rng.choice(["%H:%M:%S", "%Y", "T%H"])
+    return h
+
 
 def gen_level(rng, p_bad=0.2):
     r = rng.random()
@@ -626,7 +776,9 @@ def generate(rng, tier, index):
                 BOOL_TRUE + BOOL_FALSE
                 + (["maybe"] if rng.random() < p_bad / 2 else []))
         for _ in range(rng.choice([0, 1, 1, 2, 3])):
-            lg["handlers"].append(gen_handler(rng, k, p_bad))
+            lg["handlers"].append(gen_handler(rng, k, p_bad)
+                                  if rng.random() < 0.88
+                                  else gen_other_handler(rng, k, p_bad))
             k += 1
         r_ = rng.random()
         if r_ < 0.05:
@@ -661,7 +813,7 @@ def generate(rng, tier, index):
     # the same format text in two handler sections that differ in
     # arbitrary-fields (validation must not be remembered per text)
     plainh = [h for lg in loggers for h in lg["handlers"]
-              if h["path"] not in ("STDOUT", "STDERR")
+              if h["path"] not in NOFILE
               and not h.get("max_size") and not h.get("when")]
     if len(plainh) >= 2 and rng.random() < 0.25:
         # two plain log-file sections naming the SAME file (two loggers
@@ -724,10 +876,10 @@ def generate(rng, tier, index):
         else:
             history.append({"op": kind})
     plainfile = [li for li, lg in enumerate(loggers) if any(
-        h["path"] not in ("STDOUT", "STDERR") and not h.get("max_size")
+        h["path"] not in NOFILE and not h.get("max_size")
         and not h.get("when") for h in lg["handlers"])]
     anyfile = [li for li, lg in enumerate(loggers) if any(
-        h["path"] not in ("STDOUT", "STDERR") for h in lg["handlers"])]
+        h["path"] not in NOFILE for h in lg["handlers"])]
     if anyfile and rng.random() < 0.07:
         # scripted skeleton: the application retires a logger's handlers
         # itself (removeHandler + close) but still holds them; they are
@@ -806,7 +958,7 @@ def generate(rng, tier, index):
     # later ('mkdir'), and the factory is called again
     filehs = [(li, h) for li, lg in enumerate(loggers)
               for h in lg["handlers"]
-              if h["path"] not in ("STDOUT", "STDERR")]
+              if h["path"] not in NOFILE]
     if filehs and rng.random() < 0.12:
         li, h = rng.choice(filehs)
         h["path"] = "missing/" + h["path"]
@@ -913,7 +1065,26 @@ def execute(plan):
                             dict(logging._nameToLevel))}
     recs = []
     clock = Clock(plan["epoch"])
+    LH = logging.handlers
+    net = {"sent": 0}
+    saved["net"] = (LH.SysLogHandler.createSocket, LH.SysLogHandler.emit,
+                    LH.HTTPHandler.emit, LH.SMTPHandler.emit)
+
+    def _no_socket(self):
+        self.socket = None
+
+    def _sink(self, record):
+        # what would go out over the network: the formatted record
+        try:
+            self.format(record)
+            net["sent"] += 1
+        except Exception:
+            self.handleError(record)
     try:
+        LH.SysLogHandler.createSocket = _no_socket
+        LH.SysLogHandler.emit = _sink
+        LH.HTTPHandler.emit = _sink
+        LH.SMTPHandler.emit = _sink
         for num, name in plan.get("env_levels") or ():
             logging.addLevelName(num, name)
         if plan.get("log_ids_off"):
@@ -940,6 +1111,8 @@ def execute(plan):
             os.chdir("/")
         except OSError:
             pass
+        (LH.SysLogHandler.createSocket, LH.SysLogHandler.emit,
+         LH.HTTPHandler.emit, LH.SMTPHandler.emit) = saved["net"]
         logging.logThreads, logging.logProcesses = saved["ids"]
         logging._levelToName.clear()
         logging._levelToName.update(saved["levelnames"][0])
@@ -971,6 +1144,8 @@ def execute(plan):
         if saved["gc"]:
             gc.enable()
         shutil.rmtree(scratch, ignore_errors=True)
+    if net["sent"]:
+        out["probes"]["record-handed-to-a-network-handler"] = net["sent"]
     out["sim_time"] = clock.t - clock.t0
     return out
 
@@ -1392,6 +1567,27 @@ def _execute(plan, out, scratch, w, clock, recs):
                         violation("handler", "stream",
                                   "%s handler %d: stream %r with delay %r"
                                   % (name, j, x.stream, hm["delay"]), step)
+                if hp.get("htype"):
+                    probe("handler-section:" + hp["htype"])
+                    got_ = want_ = None
+                    if hp["htype"] == "syslog":
+                        got_ = (tuple(x.address), x.facility)
+                        want_ = (hm["address"], hm["facility"])
+                    elif hp["htype"] == "http":
+                        got_ = (x.host, x.url, x.method)
+                        want_ = (hm["host"], hm["selector"], hm["method"])
+                    else:
+                        got_ = (x.mailhost.lower(), x.mailport, x.fromaddr,
+                                list(x.toaddrs), x.subject,
+                                (x.username, x.password) if x.username
+                                else None)
+                        want_ = (hm["mailhost"], hm["mailport"], hm["from"],
+                                 hm["to"], hm["subject"], hm["credentials"])
+                    if got_ != want_:
+                        violation("handler", "options",
+                                  "%s handler %d (%s): built with %r, "
+                                  "configured %r" % (name, j, hp["htype"],
+                                                     got_, want_), step)
                 if hm["verdict"] != "unspec":
                     if kinds[j] == "size" and (
                             x.maxBytes != hm["max_bytes"]
@@ -1530,7 +1726,7 @@ def _execute(plan, out, scratch, w, clock, recs):
             # link the configured path is)
             lg = plan["loggers"][op["i"]]
             for hp in lg["handlers"]:
-                if hp["path"] in ("STDOUT", "STDERR") or hp.get("max_size") \
+                if hp["path"] in NOFILE or hp.get("max_size") \
                         or hp.get("when") or hp["path"].startswith("missing/"):
                     continue
                 lp = os.path.join(scratch, hp["path"])
